@@ -16,6 +16,14 @@ Fixpoint first_unknown (arglist : list name) (kw : list (name * Q)) : option nam
   end.
 
 (** named_vector(name, arglist) called with keyword values: unknown keyword -> TypeError; missing -> 0 *)
+(** two generated classes carry the same names (what `cls._arglist == Other._arglist` compares) *)
+Fixpoint same_names (a b : list name) : bool :=
+  match a, b with
+  | [], [] => true
+  | x :: a', y :: b' => String.eqb x y && same_names a' b'
+  | _, _ => false
+  end.
+
 Definition nv_make (arglist : list name) (kw : list (name * Q)) : result (list Q) :=
   match first_unknown arglist kw with
   | Some k => Err (UnexpectedKeyword k)
